@@ -181,17 +181,36 @@ Proof.
         rewrite E3 by lia. apply P. lia.
 Qed.
 
+(* the clone owns asize cells of its own, holds the same bytes and is terminated *)
+Lemma xclone_ok : forall x, xinv x -> exists x', xclone x = Ok x' /\ xinv x' /\ asize x' = asize x /\ x_size x' = x_size x.
+Proof.
+  intros x (S & T & P). unfold xclone. pose proof (olen_nonneg (x_buf x)) as ON. unfold asize in *.
+  set (b := repeat None (Z.to_nat (olen (x_buf x)))).
+  assert (OB : olen b = olen (x_buf x)) by (unfold b, olen; rewrite repeat_length; lia).
+  assert (M : exists b1, (if 0 <? x_size x then match slice (x_buf x) 0 (x_size x) with None => None | Some s => blit b 0 s end else Some b) = Some b1
+              /\ olen b1 = olen (x_buf x) /\ prefix_init b1 (x_size x)).
+  { destruct (0 <? x_size x) eqn:G.
+    - destruct (slice_spec (x_buf x) 0 (x_size x)) as (s & Es & Ls & Cs); try lia. rewrite Es.
+      destruct (blit_spec b 0 s) as (b1 & Eb & L1 & _ & Mid & _); [lia|lia|]. exists b1. split; auto. split; [lia|].
+      intros q Q. replace q with (0 + q) by lia. unfold cell in Mid, Cs. rewrite Mid by lia. rewrite Cs by lia. apply P. lia.
+    - apply Z.ltb_ge in G. exists b. split; auto. split; auto. intros q Q. lia. }
+  destruct M as (b1 & E1 & L1 & P1). rewrite E1.
+  destruct (finish_ok b1 (x_size x)) as (b2 & W & I); [lia|auto|]. rewrite W. eexists; split; [reflexivity|]. split; auto.
+  destruct (wro_cell _ _ _ _ W) as (OL & _). unfold asize; simpl. split; [lia|reflexivity].
+Qed.
+
 Definition xop_wf (op : xop) : Prop :=
   match op with XShift n | XPop n => 0 <= n | XInsert pos _ => 0 <= pos | _ => True end.
 
 Theorem xapply_ok : forall x op, xinv x -> xop_wf op -> exists x', xapply x op = Ok x' /\ xinv x'.
 Proof.
-  intros x op I W. destruct op as [d|d|n|n|pos d]; simpl in *.
+  intros x op I W. destruct op as [d|d|n|n|pos d|]; simpl in *.
   - apply xcat_ok; auto.
   - apply xunshift_ok; auto.
   - apply xshift_ok; auto.
   - apply xpop_ok; auto.
   - destruct (xinsert_ok x pos d I W) as [E|(x' & E & I')]; rewrite E; eauto.
+  - destruct (xclone_ok x I) as (x' & E & I' & _). eauto.
 Qed.
 
 Theorem xrun_ok : forall ops x, xinv x -> Forall xop_wf ops -> exists x', xrun x ops = Ok x' /\ xinv x'.
